@@ -34,20 +34,7 @@ func check(t hx.TB, test string, m *am.Module, validate bool) bool {
 			}
 			hx.Fail(t, test, "ll", x, "the parser rejects a valid module over a type it computed itself: %s", msg)
 		}
-		// a rejection that delta debugging pins on a getelementptr: the parser computes no type at all
-		// for an index form LLVM accepts
-		if llvmx.Accept(x).OK {
-			rejects := func(c string) bool {
-				_, e, pp := lx.Parse(c)
-				return (e != nil || pp != nil) && llvmx.Accept(c).OK
-			}
-			if min := reduce.Lines(x, 120, rejects); strings.Contains(min, "getelementptr") {
-				if len(msg) > 600 {
-					msg = msg[:600]
-				}
-				hx.Fail(t, test, "ll", min, "the parser rejects a valid module whose minimal form is a getelementptr (no type is computed for this index form): %s", msg)
-			}
-		}
+		gepRejection(t, test, x, msg)
 		hx.Discard("parser_does_not_accept(judged_by_C01)")
 		return false
 	}
@@ -82,6 +69,24 @@ func check(t hx.TB, test string, m *am.Module, validate bool) bool {
 		hx.Hist("validated_by_llvm")
 	}
 	return true
+}
+
+// gepRejection: the parser rejects (or dies on) a module LLVM accepts, and delta debugging pins the
+// rejection on a getelementptr: no type at all is computed for an index form LLVM accepts.
+func gepRejection(t hx.TB, test, x, msg string) {
+	if !strings.Contains(x, "getelementptr") || !llvmx.Accept(x).OK {
+		return
+	}
+	rejects := func(c string) bool {
+		_, e, pp := lx.Parse(c)
+		return (e != nil || pp != nil) && llvmx.Accept(c).OK
+	}
+	if min := reduce.Lines(x, 120, rejects); strings.Contains(min, "getelementptr") {
+		if len(msg) > 600 {
+			msg = msg[:600]
+		}
+		hx.Fail(t, test, "ll", min, "the parser rejects a valid module whose minimal form is a getelementptr (no type is computed for this index form): %s", msg)
+	}
 }
 
 func firstLine(s string) string {
@@ -228,6 +233,7 @@ func TestReplay(t *testing.T) {
 	x := string(buf)
 	pm, err2, p := lx.Parse(x)
 	if err2 != nil || p != nil {
+		gepRejection(t, "Replay", x, fmt.Sprint(err2, " ", p))
 		t.Logf("replay input is not parsed: %v %v", err2, p)
 		return
 	}
